@@ -653,12 +653,15 @@ class Walker:
 
     def s_Try(self, s, st):
         outs = []
-        body_outs = self.block(s.body, st.copy())
+        b0 = st.copy()
+        b0.path = b0.path + ((s, True, ("true",)),)
+        body_outs = self.block(s.body, b0)
         # handlers start from a state that forgot everything the body may have changed
         h0 = st.copy()
         self.kill(h0, assigned_names(s.body), self.effects.written_in(self.func, s.body))
-        for h in s.handlers:
+        for hi, h in enumerate(s.handlers):
             hs = h0.copy()
+            hs.path = hs.path + ((s, ("handler", hi), ("true",)),)
             if h.name:
                 hs.env[h.name] = Opaque("exception")
             outs.extend(self.block(h.body, hs))
